@@ -100,6 +100,16 @@ def make_dataset(ds_seed, nq, nlab=200, twodel=None, dup=None):
     if dup if dup is not None else ds_seed % 2 == 0:
         add_palindromes(ds, random.Random(ds_seed + 3))
         add_duplicate_contig(ds, random.Random(ds_seed + 2))
+    if ds_seed % 3 != 0:
+        # molecule ids that differ only in their high bits (q and q + 2^20, 2^31, 2^32): ids are 64-bit integers in a CMAP file, anything that
+        # packs, hashes or truncates them must keep such molecules apart
+        ids = [q[0] for q in ds['queries']]
+        ren = {}
+        hi = [2 ** 20, 2 ** 20, 2 ** 31, 2 ** 32]
+        for k in range(1, len(ids), 2):
+            ren[ids[k]] = ids[k - 1] + hi[(k // 2) % len(hi)]
+        ds['queries'] = sorted((ren.get(i, i), l, ps) for i, l, ps in ds['queries'])
+        ds['truth'] = {ren.get(i, i): t for i, t in ds['truth'].items()}
     # coordinates on the 0.5 grid so that every float operation of the implementation is exact (see DESIGN.md section 3)
     ds['refs'] = [(i, half(l), [half(p) for p in ps]) for i, l, ps in ds['refs']]
     ds['queries'] = [(i, half(l), sorted(set(half(p) for p in ps))) for i, l, ps in ds['queries']]
